@@ -7,6 +7,8 @@ from props import logix as lx
 
 
 def run(ctx, model):
+    from props import logixdrv
+    logixdrv.run_tagdb(ctx, model, "C05")
     from props import kernels
     kernels.run_filter(ctx, model, "C05")
     kernels.run_upload_parsers(ctx, model, "C05")
